@@ -160,6 +160,8 @@ theorem applyOp_stable {id : Nat} {c : Sys} (h : Stable id none (view c.s)) (op 
   | setReady _ => rw [view_applyOp_env _ _ trivial]; exact h
   | setFlush _ => rw [view_applyOp_env _ _ trivial]; exact h
   | fault _ => rw [view_applyOp_env _ _ trivial]; exact h
+  | faultSkip _ => rw [view_applyOp_env _ _ trivial]; exact h
+  | selfWake _ => rw [view_applyOp_env _ _ trivial]; exact h
   | take _ => rw [view_applyOp_env _ _ trivial]; exact h
   | advance _ => rw [view_applyOp_env _ _ trivial]; exact h
 
